@@ -1,3 +1,7 @@
+mod enc;
+mod gen;
+mod oracle;
+mod oracle2;
 mod prng;
 mod run;
 mod show;
@@ -7,24 +11,83 @@ use std::io::{BufRead, Write};
 fn main() {
     let args: Vec<String> = std::env::args().collect();
     let mode = args.get(1).map(|s| s.as_str()).unwrap_or("");
+    let flush = std::env::var("VERIF_FLUSH").is_ok();
     match mode {
-        "run" => {
-            // quiet panics: they are an observation, not noise
+        // requests on stdin (anything after a TAB is annotation and ignored) -> replies on stdout
+        "run" | "run-timed" => {
             std::panic::set_hook(Box::new(|_| {}));
             let stdin = std::io::stdin();
             let stdout = std::io::stdout();
-            let mut out = std::io::BufWriter::new(stdout.lock());
+            let mut out = std::io::BufWriter::with_capacity(1 << 20, stdout.lock());
             for line in stdin.lock().lines() {
                 let line = line.unwrap();
-                let r = std::panic::catch_unwind(|| run::run_line(&line));
-                match r {
-                    Ok(s) => writeln!(out, "{}", s).unwrap(),
-                    Err(_) => writeln!(out, "panic").unwrap(),
+                let req = line.split('\t').next().unwrap_or("").to_string();
+                let t0 = std::time::Instant::now();
+                let r = std::panic::catch_unwind(|| run::run_line(&req));
+                let us = t0.elapsed().as_micros();
+                let s = match r {
+                    Ok(s) => s,
+                    Err(_) => "panic".to_string(),
+                };
+                if mode == "run-timed" {
+                    writeln!(out, "{}\t{}", s, us).unwrap();
+                } else {
+                    writeln!(out, "{}", s).unwrap();
+                }
+                if flush {
+                    out.flush().unwrap();
                 }
             }
         }
+        // `req TAB ann` on stdin -> OK / FAIL … per line
+        "oracle" => {
+            std::panic::set_hook(Box::new(|_| {}));
+            let stdin = std::io::stdin();
+            let stdout = std::io::stdout();
+            let mut out = std::io::BufWriter::with_capacity(1 << 20, stdout.lock());
+            for line in stdin.lock().lines() {
+                let line = line.unwrap();
+                let mut parts = line.splitn(2, '\t');
+                let req = parts.next().unwrap_or("").to_string();
+                let ann = parts.next().unwrap_or("-").to_string();
+                let r = std::panic::catch_unwind(|| oracle::oracle_line(&req, &ann));
+                match r {
+                    Ok(Ok(())) => writeln!(out, "OK").unwrap(),
+                    Ok(Err(e)) => writeln!(out, "FAIL {}", e.replace('\n', " ")).unwrap(),
+                    Err(_) => writeln!(out, "FAIL panic").unwrap(),
+                }
+                if flush {
+                    out.flush().unwrap();
+                }
+            }
+        }
+        // gen <stream> <seed> <n> <quick|thorough>  ->  `req TAB ann` lines
+        "gen" => {
+            let stream = args.get(2).map(|s| s.as_str()).unwrap_or("");
+            let seed: u64 = args.get(3).and_then(|s| s.parse().ok()).unwrap_or(1);
+            let n: usize = args.get(4).and_then(|s| s.parse().ok()).unwrap_or(1000);
+            let thorough = args.get(5).map(|s| s == "thorough").unwrap_or(false);
+            let mut rng = prng::Rng::new(seed ^ prng::Rng::new(stream.len() as u64 * 7919 + stream.bytes().map(|b| b as u64).sum::<u64>()).next());
+            let cases = match stream {
+                "int" => gen::gen_int(&mut rng, n, thorough),
+                "parse" => gen::gen_parse(&mut rng, n, thorough),
+                "table" => gen::gen_table(&mut rng, n, thorough),
+                "strtab" => gen::gen_strtab(&mut rng, n, thorough),
+                "utf8" => gen::gen_utf8(&mut rng, n, thorough),
+                "ident" => gen::gen_ident(&mut rng, n, thorough),
+                _ => {
+                    eprintln!("unknown stream {}", stream);
+                    std::process::exit(2);
+                }
+            };
+            let stdout = std::io::stdout();
+            let mut out = std::io::BufWriter::with_capacity(1 << 20, stdout.lock());
+            for (req, ann) in cases {
+                writeln!(out, "{}\t{}", req, ann).unwrap();
+            }
+        }
         _ => {
-            eprintln!("usage: elfharness run|gen|oracle …");
+            eprintln!("usage: elfharness run|run-timed|oracle|gen <stream> <seed> <n> <tier>");
             std::process::exit(2);
         }
     }
